@@ -75,6 +75,7 @@ JudgeS(r) ==
         IN IF multi # {} THEN LET x == CHOOSE y \in multi : TRUE IN
                 << <<"BAD", "sched", "single-step-call-is-not-one-critical-section", r.prog[x[1]][x[2]].op, IF r.gates[x[1]][x[2]] = 0 THEN "no-guard" ELSE "several-guards">> >>
            ELSE IF viol # "-" THEN << <<"BAD", "sched", "quiescent-state-illformed", viol>> >>
+           ELSE IF r.judge = "wf" THEN << <<"ok", "sched-composite", OpsTag(r.prog), "nt">> >>      \* C03: several-guard calls are not claimed atomic
            ELSE LET W == Walk0(r)  final == AbsOf(r.final) IN
                 IF W.bad THEN << <<"BAD", "sched", "schedule-log-inconsistent">> >>
                 ELSE IF \A x \in ids : r.gates[x[1]][x[2]] = 1 THEN
